@@ -19,11 +19,16 @@ structure Dev where
   mode : Mode := none
   deriving Repr, Inhabited
 
+def isPre : List Char → List Char → Bool
+  | [], _ => true
+  | _, [] => false
+  | p :: ps, c :: cs => p == c && isPre ps cs
+
 def defining (k : Kind) (head : String) : Bool :=
   match k with
   | .gp => head == "internal"
   | .user => head == "nopassword"
-  | .tg => head.startsWith "type "
+  | .tg => isPre "type ".toList head.toList
   | .certmap => true          -- every `crypto ca certificate map NAME SEQ` defines (an entry of) the map
   | _ => false
 
@@ -41,10 +46,6 @@ def Dev.refOk (d : Dev) : Option Ref → Bool
 def Dev.referenced (d : Dev) (r : Ref) : Bool := d.objs.any fun o => o.refs.contains r
 def Dev.modObj (d : Dev) (r : Ref) (f : Obj → Obj) : Dev :=
   { d with objs := d.objs.map fun o => if o.id == r then f o else o }
-def isPre : List Char → List Char → Bool
-  | [], _ => true
-  | _, [] => false
-  | p :: ps, c :: cs => p == c && isPre ps cs
 def hasInfix (p : List Char) : List Char → Bool
   | [] => p.isEmpty
   | c :: cs => isPre p (c :: cs) || hasInfix p cs
